@@ -721,6 +721,9 @@ func ext۰reflect۰valueInterface(args []value) value {
 }
 
 func ext۰reflect۰error۰Error(fr *frame, args []value) value {
+	if p, ok := args[0].(*value); ok && p != nil {
+		return (*p).(structure)[0]
+	}
 	return args[0]
 }
 
